@@ -291,7 +291,14 @@ class ManifestContext:
                 f'No video representation of stream {stream.directory} matches the request')
         if timing:
             opts.availabilityStartTime = timing.availabilityStartTime
-            opts.timeShiftBufferDepth = timing.timeShiftBufferDepth
+            if (
+                    opts.mode != 'live' or
+                    not opts.timeShiftBufferDepth or
+                    opts.timeShiftBufferDepth < 0):
+                opts.timeShiftBufferDepth = timing.timeShiftBufferDepth
+            # otherwise keep the requested depth in the media and patch URLs: for a
+            # stream younger than that depth, timing.timeShiftBufferDepth is clamped
+            # to its current age and would freeze the window at that size
             self.update_timing(timing)
 
         self.cgi_params = self.calculate_cgi_parameters(
